@@ -89,10 +89,11 @@ def impl_write(mods, lay, recs):
     return f'ok {hx(out)} {",".join(map(str, tells))}', (out, tells)
 
 
-def impl_history(mods, data, ops):
-    """ops: list of ('r', n) ('s', n) ('n',) ('k', offset) ('t',). Returns list of canonical replies."""
+def impl_history(mods, data, ops, reader=None):
+    """ops: list of ('r', n) ('s', n) ('n',) ('k', offset) ('t',). Returns list of canonical replies.
+    reader: a FileRead obtained some other way (pad-settings entry point) instead of FileRead(BytesIO(data))."""
     File, PhysRec, TifMarker = mods[0], mods[1], mods[2]
-    fr = File.FileRead(io.BytesIO(data), 'c05', False)
+    fr = reader if reader is not None else File.FileRead(io.BytesIO(data), 'c05', False)
     out, halted = [], False
     for op in ops:
         if halted:
@@ -313,6 +314,116 @@ def check_case(ctx, mods, lay, recs, ops, want_nontriv=True):
     return res
 
 
+# ------------------------------------------------------------------ reader obtained through the pad-settings heuristic
+
+PR_LIMITS = (1, 5, 100, 0)
+
+
+def impl_best(mods, data, limit):
+    """File.best_physical_record_pad_settings -> canonical 'pad_modulo,pad_non_null' | 'None' | 'X:<exception>'."""
+    File = mods[0]
+    try:
+        st = File.best_physical_record_pad_settings(io.BytesIO(data), limit)
+    except Exception as e:
+        return 'X:' + type(e).__name__
+    return 'None' if st is None else '%d,%d' % (st.pad_modulo, int(st.pad_non_null))
+
+
+def check_pad_case(ctx, mods, lay, recs, ops, pad, limit):
+    """Oracle for File.file_read_with_best_physical_record_pad_settings(fobj, id, pr_limit): the reader it returns
+    must answer every history exactly like the records say. pad = None (file as FileWrite writes it) | (modulo, fill)."""
+    lis = _lis()
+    tif, prmax, rec, fnum, chk = lay
+    File = mods[0]
+    case = {'op': 'pad', 'layout': list(lay), 'records': [r.hex() for r in recs], 'ops': [list(o) for o in ops],
+            'pad': None if pad is None else [pad[0], pad[1] if isinstance(pad[1], int) else pad[1].hex()], 'limit': limit}
+    data, tells, _ = lis.layout(recs, prmax, (bool(rec), fnum, bool(chk)), tif, pad)
+    ctx.count('oracle_cases')
+    best = impl_best(mods, data, limit)
+    try:
+        fr = File.file_read_with_best_physical_record_pad_settings(io.BytesIO(data), 'c05', limit)
+    except Exception as e:
+        ctx.fail(dict(case, ops=[]), f'file_read_with_best_physical_record_pad_settings raised {type(e).__name__}')
+        return data, best, None
+    if fr is None:
+        ctx.fail(dict(case, ops=[]), 'no reader returned (pad settings: %s) for a well-formed file' % best)
+        return data, best, None
+    whole = [('r', -1)] * (len(recs) + 1) + [('t',)]
+    allops = whole + [('k', 0)] + list(ops) if recs else whole
+    conc = [('k', tells[o[1]]) if o[0] == 'k' else o for o in allops]
+    got = impl_history(mods, data, conc, reader=fr)
+    want = reference_history(recs, tells, allops)
+    if got != want:
+        i = next(i for i, (x, y) in enumerate(zip(got, want)) if x != y)
+        short = allops[:i + 1]
+        ctx.fail(dict(case, ops=[list(o) for o in short[len(whole) + 1:]] if i > len(whole) else []),
+                 f'reader from pad settings {best} (pr_limit={limit}): operation #{i} {allops[i]}: got {got[i][:60]} '
+                 f'expected {want[i][:60]}')
+    else:
+        ctx.nontriv(('pad', lay, tuple(len(r) for r in recs), str(pad), limit))
+    return data, best, got
+
+
+def gen_aligned_prefix(rng, k, j):
+    """A file whose first k physical records all end on 4-byte boundaries, then one of odd length, then more records.
+    j selects trailer combination and TIF mode."""
+    combo = j % 8
+    rec, hasfn, chk = bool(combo & 1), bool(combo & 2), bool(combo & 4)
+    tif = (j // 8) % 3
+    fnum = rng.choice(FILE_NUMS) if hasfn else None
+    tl = 2 * rec + 2 * hasfn + 2 * chk
+    base = (-(4 + tl)) % 4 or 4                  # payload lengths p with (4 + p + tl) % 4 == 0
+    mp = base + 4 * rng.randint(0, 6)
+    lay = (tif, 4 + tl + mp, int(rec), fnum, int(chk))
+    recs, prs = [], 0
+    while prs < k:
+        if rng.random() < 0.3 and prs + 3 <= k:
+            m = rng.randint(2, 3); recs.append(bytes(rng.getrandbits(8) for _ in range(mp * m))); prs += m
+        else:
+            p = base + 4 * rng.randint(0, (mp - base) // 4); recs.append(bytes(rng.getrandbits(8) for _ in range(p))); prs += 1
+    odd = [q for q in range(1, mp + 1) if (4 + q + tl) % 2 == 1]
+    recs.append(bytes(rng.getrandbits(8) for _ in range(rng.choice(odd))))
+    for _ in range(rng.randint(2, 4)):
+        recs.append(bytes(rng.getrandbits(8) for _ in range(rng.randint(1, 3 * mp))))
+    if tif == 2 and first_next(lay, recs) in (0x100, 0x10000):
+        recs[0] = recs[0] + bytes(4)
+    return lay, recs
+
+
+def run_pad(ctx, mods, cases):
+    """Pad-settings entry points: unpadded written files (all layouts, pr_limit 1/5/100/0), files whose first k PRs are
+    4-byte aligned with a later odd one (k around pr_limit), padded files (null padding; non-null with TIF markers)."""
+    rng = ctx.rng
+    todo = []   # (lay, recs, ops, pad, limit)
+    small = [c for c in cases if sum(map(len, c[1])) < 3000 and c[1]
+             and not (c[0][0] == 2 and first_next(c[0], c[1]) in (0x100, 0x10000))]
+    for idx, (lay, recs, ops) in enumerate(small[:ctx.n(700, 6000)]):
+        for limit in (PR_LIMITS if idx % 4 == 0 else (PR_LIMITS[idx % 4],)):
+            todo.append((lay, recs, ops[:60] if idx % 3 else ops, None, limit))
+    j = 0
+    for limit in (1, 5, 100):
+        for k in (max(limit - 1, 1), limit, limit + 1, limit + 3):
+            for _ in range(ctx.n(24, 240) if limit < 100 else ctx.n(6, 48)):
+                lay, recs = gen_aligned_prefix(rng, k, j); j += 1
+                todo.append((lay, recs, gen_history(rng, lay, recs, 40), None, limit))
+                if j % 5 == 0:
+                    todo.append((lay, recs, [], None, 0))
+    for j2 in range(ctx.n(400, 4000)):
+        lay = gen_layout(rng, j2)
+        recs = gen_records(rng, lay)
+        if not recs or (lay[0] == 2 and first_next(lay, recs) in (0x100, 0x10000)):
+            continue
+        fill = 0 if (lay[0] == 0 or rng.random() < 0.5) else rng.choice([0x20, 0xFF, 1, b'\x01\x02'])
+        todo.append((lay, recs, gen_history(rng, lay, recs, 40), (rng.choice([2, 4]), fill), 0))
+    lines = []
+    results = []
+    for lay, recs, ops, pad, limit in todo:
+        data, best, got = check_pad_case(ctx, mods, lay, recs, ops, pad, limit)
+        results.append((data, best, limit, pad, lay, recs))
+    ctx.count('pad_cases', len(todo))
+    return results
+
+
 # ------------------------------------------------------------------ malformed files (correspondence only)
 
 def mutate_file(rng, data, lay):
@@ -415,6 +526,8 @@ def run(ctx):
                 'ops': show_ops(cases[30][2])[:300], 'replies': ','.join(results[30]['hist'])[:300]})
     ctx.sample({'layout(tif,prMax,rec,fileNum,chk)': list(cases[77][0]), 'record_lengths': [len(r) for r in cases[77][1]],
                 'ops': show_ops(cases[77][2])[:300]})
+    # ---------------- readers obtained through best_physical_record_pad_settings
+    pad_results = run_pad(ctx, mods, cases)
     # ---------------- malformed files: model vs implementation only
     mal = []
     for j in range(ctx.n(3000, 30000)):
@@ -451,6 +564,18 @@ def run(ctx):
 def replay(ctx, rec):
     mods = _impl()
     case = rec['case']
+    if case.get('op') == 'pad':
+        lay = tuple(case['layout'])
+        recs = [bytes.fromhex(r) for r in case['records']]
+        ops = [tuple(o) for o in case['ops']]
+        pad = case['pad']
+        if pad is not None:
+            pad = (pad[0], pad[1] if isinstance(pad[1], int) else bytes.fromhex(pad[1]))
+        n0 = len(ctx.failures)
+        check_pad_case(ctx, mods, lay, recs, ops, pad, case['limit'])
+        if len(ctx.failures) > n0:
+            return False, ctx.failures[-1]['detail']
+        return True, 'the reader returned by file_read_with_best_physical_record_pad_settings reads the records back'
     if case.get('op') != 'file':
         return True, 'nothing to replay (no concrete failing input was recorded)'
     lay = tuple(case['layout'])
